@@ -150,6 +150,99 @@ func (p *Prog) staticCallers() map[*ssa.Function][]ssa.CallInstruction {
 	return m
 }
 
+// DynamicTypes: the concrete types an interface value can hold, traced through parameters (to the arguments of every
+// static caller), local cells, phis and interface conversions. complete=false when some source cannot be enumerated
+// (an exported function's parameter, a field, a call result): then anything may flow in.
+func DynamicTypes(p *Prog, v ssa.Value) (ts []types.Type, complete bool) {
+	callers := p.staticCallers()
+	seen := map[ssa.Value]bool{}
+	complete = true
+	var walk func(v ssa.Value, depth int)
+	walk = func(v ssa.Value, depth int) {
+		if v == nil || seen[v] {
+			return
+		}
+		seen[v] = true
+		if depth > 12 {
+			complete = false
+			return
+		}
+		switch x := v.(type) {
+		case *ssa.MakeInterface:
+			ts = append(ts, x.X.Type())
+		case *ssa.ChangeInterface:
+			walk(x.X, depth+1)
+		case *ssa.ChangeType:
+			walk(x.X, depth+1)
+		case *ssa.Phi:
+			for _, e := range x.Edges {
+				walk(e, depth+1)
+			}
+		case *ssa.Const:
+			// nil interface: no dynamic type
+		case *ssa.Parameter:
+			f := x.Parent()
+			obj, _ := f.Object().(*types.Func)
+			idx := -1
+			for i, q := range f.Params {
+				if q == x {
+					idx = i
+				}
+			}
+			cs := callers[f]
+			if idx < 0 || len(cs) == 0 || (f.Parent() == nil && (obj == nil || obj.Exported())) {
+				complete = false
+				return
+			}
+			for _, call := range cs {
+				args := CallArgs(call)
+				if idx < len(args) {
+					walk(args[idx], depth+1)
+				} else {
+					complete = false
+				}
+			}
+		case *ssa.FreeVar:
+			if b := ClosureBinding(x); b != nil {
+				walk(b, depth+1)
+			} else {
+				complete = false
+			}
+		case *ssa.UnOp:
+			if x.Op == token.MUL {
+				if al, ok := x.X.(*ssa.Alloc); ok {
+					n := 0
+					for _, r := range *al.Referrers() {
+						if st, ok := r.(*ssa.Store); ok && st.Addr == ssa.Value(al) {
+							n++
+							walk(st.Val, depth+1)
+						}
+					}
+					if n == 0 {
+						complete = false
+					}
+					return
+				}
+				if fv, ok := x.X.(*ssa.FreeVar); ok {
+					if b, ok := ClosureBinding(fv).(*ssa.Alloc); ok {
+						for _, r := range *b.Referrers() {
+							if st, ok := r.(*ssa.Store); ok && st.Addr == ssa.Value(b) {
+								walk(st.Val, depth+1)
+							}
+						}
+						return
+					}
+				}
+			}
+			complete = false
+		default:
+			complete = false
+		}
+	}
+	walk(v, 0)
+	return ts, complete
+}
+
 // DeepSources computes the interprocedural, field-sensitive sources of v.
 func DeepSources(p *Prog, v ssa.Value) *Sources {
 	w := &deepWalker{p: p, s: newSources(), seen: map[string]bool{}, callers: p.staticCallers()}
@@ -204,6 +297,9 @@ func (w *deepWalker) local(v ssa.Value) {
 	}
 	for k := range sub.Params {
 		w.s.Params[k] = true
+	}
+	for k := range sub.Values {
+		w.s.Values[k] = true
 	}
 }
 
@@ -328,6 +424,9 @@ func (w *deepWalker) param(x *ssa.Parameter, sel []int, ctx *deepCtx, depth int,
 	}
 	if f.Parent() != nil {
 		// a closure: only its direct calls (a local helper `respond := func(…)`, called by name) are known call sites
+		if len(w.callers[f]) == 0 {
+			w.s.LeafParams[x] = true
+		}
 		for _, call := range w.callers[f] {
 			follow(call, nil)
 		}
@@ -337,8 +436,12 @@ func (w *deepWalker) param(x *ssa.Parameter, sel []int, ctx *deepCtx, depth int,
 		// an unselected parameter is itself the interesting leaf for most rules; callers are followed only for
 		// unexported helpers (an exported entry point's parameter is an input of the component)
 		if obj, _ := f.Object().(*types.Func); (obj == nil || obj.Exported()) && !w.o.Heap {
+			w.s.LeafParams[x] = true
 			return
 		}
+	}
+	if len(w.callers[f]) == 0 {
+		w.s.LeafParams[x] = true
 	}
 	for _, call := range w.callers[f] {
 		follow(call, nil)
